@@ -100,7 +100,7 @@ class ClassInfo:
                             self.class_attrs.pop(t.id, None)
                             self.rebound.discard(t.id)
                             continue
-                        if t.id in self.methods or isinstance(st.value, (ast.Lambda, ast.Call)):
+                        if t.id in self.methods:
                             # a method name bound to something else (a wrapped function, a lambda): what a call of
                             # it does is not the def above
                             self.rebound.add(t.id)
